@@ -123,7 +123,7 @@ Section Aggregator.
     match ps with
     | [] => Some name
     | p :: r =>
-        if str_eqb (upper_py p) kw_name then
+        if str_eqb p kw_name then
           match r with
           | [] => None
           | n :: _ => scan_name r n
@@ -131,8 +131,22 @@ Section Aggregator.
         else scan_name r name
     end.
 
+  (* the same loop, also remembering the index of the last NAME keyword (name_index) *)
+  Fixpoint scan_name_idx (ps : list str) (i : nat) (cur : option nat * str)
+    : option (option nat * str) :=
+    match ps with
+    | [] => Some cur
+    | p :: r =>
+        if str_eqb p kw_name then
+          match r with
+          | [] => None
+          | n :: _ => scan_name_idx r (S i) (Some i, n)
+          end
+        else scan_name_idx r (S i) cur
+    end.
+
   Definition has_expectfail (ps : list str) : bool :=
-    existsb (fun p => str_eqb (upper_py p) kw_expectfail) ps.
+    existsb (fun p => str_eqb p kw_expectfail) ps.
 
   (* process_ct_add_test / process_ct_add_section *)
   Definition process_test (is_section : bool) (c : cmd) (doc : str) (docd : bool) (st : agg)
@@ -239,16 +253,20 @@ Section Aggregator.
              with_docs (update_nth cidx (add_attr a)) st
          end.
 
+  (* [p for i, p in enumerate(params) if name_index < 0 or i not in (name_index, name_index + 1)] *)
+  Definition drop_name_pair (idx : option nat) (ps : list str) : list str :=
+    match idx with
+    | None => ps
+    | Some i => firstn i ps ++ skipn (i + 2) ps
+    end.
+
   (* process_add_test *)
   Definition process_add_test (c : cmd) (doc : str) (docd : bool) (st : agg) : agg :=
     let ps := singles c in
     if Nat.ltb (length ps) 2 then st
-    else match scan_name ps [] with
+    else match scan_name_idx ps 0 (None, []) with
          | None => st
-         | Some name =>
-             append (ECTest name doc
-                       (filter (fun p => negb (str_eqb p name) && negb (str_eqb p kw_name)) ps))
-                    docd st
+         | Some (idx, name) => append (ECTest name doc (drop_name_pair idx ps)) docd st
          end.
 
   (* process_option *)
@@ -259,23 +277,30 @@ Section Aggregator.
     | _ => st
     end.
 
-  (* process_generic_command *)
+  (* _argument_text: an argument as written, a parenthesised group with single spaces *)
+  Fixpoint arg_written (a : arg) : str :=
+    match a with
+    | ASingle _ t => t
+    | ACompound l => [lpar] ++ join (s" ") (map arg_written l) ++ [rpar]
+    end.
+
+  (* process_generic_command: the arguments in source order *)
   Definition process_generic (command : str) (c : cmd) (doc : str) (docd : bool) (st : agg)
     : agg :=
-    append (EGeneric command doc (singles c ++ compounds c)) docd st.
+    append (EGeneric command doc (map arg_written (c_args c))) docd st.
 
-  (* the process_* methods found by reflection *)
+  (* the process_* methods found by reflection (process_generic_command is the fallback,
+     explicitly not a processor) *)
   Inductive handler :=
   | HFunction | HMacro | HCpa | HTest | HSection | HSet | HClass | HMember | HCtor
-  | HAttr | HAddTest | HOption | HGenericName.
+  | HAttr | HAddTest | HOption.
 
   Definition handler_table : list (str * handler) :=
     [ (s"function", HFunction); (s"macro", HMacro);
       (s"cmake_parse_arguments", HCpa); (s"ct_add_test", HTest);
       (s"ct_add_section", HSection); (s"set", HSet); (s"cpp_class", HClass);
       (s"cpp_member", HMember); (s"cpp_constructor", HCtor); (s"cpp_attr", HAttr);
-      (s"add_test", HAddTest); (s"option", HOption);
-      (s"generic_command", HGenericName) ].
+      (s"add_test", HAddTest); (s"option", HOption) ].
 
   Fixpoint lookup {A} (k : str) (t : list (str * A)) : option A :=
     match t with
@@ -299,7 +324,6 @@ Section Aggregator.
     | HAttr => Ok (process_attr c doc docd st)
     | HAddTest => Ok (process_add_test c doc docd st)
     | HOption => Ok (process_option c doc docd st)
-    | HGenericName => Crash    (* process_generic_command(ctx, doc): TypeError *)
     end.
 
   (* enterDocumented_command *)
@@ -324,7 +348,7 @@ Section Aggregator.
     | HSection => Some (inc_ct_add_section fl)
     | HAddTest => Some (inc_add_test fl)
     | HOption => Some (inc_option fl)
-    | HCpa | HSet | HGenericName => None
+    | HCpa | HSet => None
     end.
 
   Definition upd_method (is_macro : bool) (extra : list str) (m : method) : method :=
@@ -375,7 +399,8 @@ Section Aggregator.
       let extra := if Nat.ltb 2 (length params) then skipn 2 params else [] in
       let st1 := with_docs (upd_awaiting_entry (awaiting st) (str_eqb command (s"macro")) extra) st in
       let st2 := with_awaiting AwNone st1 in
-      Ok (with_def_stack (None :: def_stack st2) st2)
+      (* a documented definition already pushed its frame in process_function/process_macro *)
+      if consumed then Ok st2 else Ok (with_def_stack (None :: def_stack st2) st2)
     else if str_eqb command (s"endfunction") || str_eqb command (s"endmacro") then
       match def_stack st with
       | [] => Crash       (* IndexError: pop from empty list *)
